@@ -26,6 +26,8 @@ type MetricManager struct {
 	providerData              *metricsProviderData
 
 	metricManagerActive bool
+	// activeMu guards metricManagerActive: transactions read it while a reload sets it
+	activeMu sync.RWMutex
 
 	mu sync.Mutex
 }
@@ -110,14 +112,22 @@ func (m *MetricManager) ReloadMetricsConfig() error {
 		}
 	}
 
+	m.activeMu.Lock()
 	m.metricManagerActive = true
+	m.activeMu.Unlock()
 	log.Info().Msg("Metrics manager reloaded")
 	return nil
 }
 
+func (m *MetricManager) isActive() bool {
+	m.activeMu.RLock()
+	defer m.activeMu.RUnlock()
+	return m.metricManagerActive
+}
+
 // UpdateMetricsForAPICall updates the general metrics - relevant for the API calls
 func (m *MetricManager) UpdateMetricsForAPICall(provider APICallMetricsProviderI) {
-	if !m.metricManagerActive {
+	if !m.isActive() {
 		return
 	}
 
@@ -128,7 +138,7 @@ func (m *MetricManager) UpdateMetricsForAPICall(provider APICallMetricsProviderI
 
 // UpdateMetricsForFlow updates the system metrics - relevant for the flows
 func (m *MetricManager) UpdateMetricsForFlow(provider FlowMetricsProviderI) {
-	if !m.metricManagerActive {
+	if !m.isActive() {
 		return
 	}
 
